@@ -67,6 +67,13 @@ func init() {
 								add(n, k, f, "verifier", "")
 							}
 						}
+						// the commitment-based mechanism is sensitive to the NUMBER of checks in the
+						// circuit: every circuit size (restriction to k rounds) on one instance of each circuit
+						if n == "A_testdata" || n == "B_random_CGZ" {
+							for k := 3; k <= 27; k++ {
+								add(n, k, "commit", "verifier", "")
+							}
+						}
 						if isA {
 							for _, f := range []string{"native", "plain", "commit"} {
 								add(n, 1, f, "fixed", "")
@@ -82,9 +89,11 @@ func init() {
 								add(n, k, "native", "fixed", "")
 							}
 						}
+						for k := 1; k <= 28; k++ {
+							add(n, k, "commit", "verifier", "")
+						}
 						for _, k := range []int{1, 2, 3, 7, 14, 27, 28} {
 							add(n, k, "plain", "verifier", "")
-							add(n, k, "commit", "verifier", "")
 							if isA {
 								add(n, k, "plain", "fixed", "")
 								add(n, k, "commit", "fixed", "")
